@@ -362,11 +362,38 @@ def translate_persist(repo, gen, write):
                                 tg = b.targets[0] if isinstance(b, ast.Assign) else b.target
                                 cattrs.append(f"{os.path.relpath(pth, repo)}:{n.name}.{ast.unparse(tg)}")
         cattrs.sort()
+        # every `if` of a model class's __init__: which attributes each branch assigns through `self`
+        def _top_attrs(stmts, methods, depth=0):
+            out = set()
+            for st in stmts:
+                if isinstance(st, (ast.Assign, ast.AnnAssign, ast.AugAssign)):
+                    for tg in (st.targets if isinstance(st, ast.Assign) else [st.target]):
+                        if isinstance(tg, ast.Attribute) and isinstance(tg.value, ast.Name) and tg.value.id == "self":
+                            out.add(tg.attr)
+                if isinstance(st, ast.Expr) and isinstance(st.value, ast.Call) and isinstance(st.value.func, ast.Attribute) \
+                        and isinstance(st.value.func.value, ast.Name) and st.value.func.value.id == "self" and depth == 0 \
+                        and st.value.func.attr in methods:
+                    out |= _top_attrs(methods[st.value.func.attr].body, methods, 1)
+            return out
+        branches = []
+        for relp in ["opfython/core/opf.py"] + sorted("opfython/models/" + f for f in os.listdir(os.path.join(repo, "opfython/models")) if f.endswith(".py")):
+            for n in ast.parse(open(os.path.join(repo, relp)).read()).body:
+                if isinstance(n, ast.ClassDef):
+                    methods = {b.name: b for b in n.body if isinstance(b, ast.FunctionDef)}
+                    if "__init__" in methods:
+                        for st in ast.walk(methods["__init__"]):
+                            if isinstance(st, ast.If):
+                                a = sorted(_top_attrs(st.body, methods)); b_ = sorted(_top_attrs(st.orelse, methods))
+                                branches.append((f"{relp}:{n.name}.__init__:{st.lineno}", a, b_))
         out += ["/-- classes of the package that customise pickling / copying -/",
                 "def pickle_hooks : List String := [" + ", ".join('"' + h + '"' for h in hooks) + "]", "",
                 "/-- data attributes defined at CLASS level (assignments in a class body, `__slots__` included) in the package's classes: such an\n"
                 "attribute is not in an instance's `__dict__` until it is assigned through `self`, so `pickle.dump(self)` / `__dict__.update` would not carry it -/",
-                "def class_data_attrs : List String := [" + ", ".join('"' + h + '"' for h in cattrs) + "]", ""]
+                "def class_data_attrs : List String := [" + ", ".join('"' + h + '"' for h in cattrs) + "]", "",
+                "/-- every `if` in the `__init__` of `OPF` and of the model classes: the attributes assigned through `self` in its then-branch and in its\n"
+                "else-branch (a call `self.m(…)` counts with what `m` assigns at its top level) -/",
+                "def init_branches : List (String × List String × List String) := [" + ", ".join(
+                    '("' + w + '", [' + ", ".join('"' + x + '"' for x in a) + '], [' + ", ".join('"' + x + '"' for x in b_) + '])' for w, a, b_ in branches) + "]", ""]
         body = out
         err = None
     except Untranslatable as ex:
